@@ -9,6 +9,7 @@ import OxiaVerif.Driver.DbProto
 import OxiaVerif.Model.Shard
 import OxiaVerif.Model.Select
 import OxiaVerif.Model.Batch
+import OxiaVerif.Model.Ack
 
 /-! Line-protocol dispatch: one operation line in, one output line out. -/
 namespace Oxia.Driver
@@ -23,6 +24,8 @@ structure State where
   dbDisk : Bool := false
   cluster : Shard.ClusterStatus := { namespaces := [], gen := 0, serverIdx := 0 }
   client : List Shard.Shard := []
+  tracker : Ack.Tracker := Ack.Tracker.new 1 (-1) (-1)
+  trackerSet : Bool := false
 
 def State.init : State := {}
 
@@ -506,6 +509,54 @@ def stepBatch (st : State) (toks : List String) : State × String :=
     (st, String.intercalate "," ((Batch.kwayMerge total lists).map Hex.encode))
   | _ => (st, "bad-op")
 
+def showTracker (before after : Ack.Tracker) : String :=
+  "commit=" ++ toString after.commit ++ " head=" ++ toString after.head ++ " done=" ++
+    String.intercalate "," ((after.completed.drop before.completed.length).map toString) ++
+    (if after.panicked then " panic" else "")
+
+def stepAck (st : State) (toks : List String) : State × String :=
+  let t := st.tracker
+  if toks.head? != some "q.new" && toks.head? != some "lc.concurrent" && !st.trackerSet then (st, "bad-op") else
+  match toks with
+  | ["q.new", rf, h, c] =>
+    match rf.toNat?, h.toInt?, c.toInt? with
+    | some rf, some h, some c => let t' := Ack.Tracker.new rf h c; ({ st with tracker := t', trackerSet := true }, showTracker t' t')
+    | _, _, _ => (st, "bad-op")
+  | ["q.head", h] =>
+    match h.toInt? with
+    | some h => let t' := Ack.advanceHead t h; ({ st with tracker := t' }, showTracker t t')
+    | none => (st, "bad-op")
+  | ["q.cursor", a] =>
+    match a.toInt? with
+    | some a =>
+      (match Ack.newCursor t a with
+       | .ok (t', i) => ({ st with tracker := t' }, "cursor=" ++ toString i ++ " " ++ showTracker t t')
+       | .error .tooMany => (st, "err:too-many-cursors")
+       | .error .invalidHead => (st, "err:invalid-head-offset"))
+    | none => (st, "bad-op")
+  | ["q.ack", i, o] =>
+    match i.toNat?, o.toInt? with
+    | some i, some o =>
+      -- only cursors that were created have an acker object
+      let t' := if i < t.cursorGen then Ack.ack t i o else t
+      ({ st with tracker := t' }, showTracker t t')
+    | _, _ => (st, "bad-op")
+  | ["q.wait", o, id] =>
+    match o.toInt?, id.toNat? with
+    | some o, some id => let t' := Ack.waitAsync t o id; ({ st with tracker := t' }, showTracker t t')
+    | _, _ => (st, "bad-op")
+  | ["q.next"] => let (t', o) := Ack.nextOffset t; ({ st with tracker := t' }, "next=" ++ toString o)
+  | "lc.concurrent" :: rest =>
+    -- any interleaving of atomic writes: all succeed, contiguous offsets
+    let get (k : String) : String := (DbProto.kvOf rest k).getD "_"
+    let n := (get "writers").toNat?.getD 0 * (get "each").toNat?.getD 0
+    let atomic := Facts.writeHoldsAppendLockAcrossAllocAndAppend
+    let evs : List Ack.PEv := if atomic then (List.range n).map .write
+      else ((List.range n).map .alloc) ++ ((List.range n).reverse.map .append)
+    let p := Ack.prun (Ack.Pipe.new 1 (-1) (-1)) evs
+    (st, "ok=" ++ toString p.appended.length ++ " failed=" ++ toString p.failed.length)
+  | _ => (st, "bad-op")
+
 def step (st : State) (line : String) : State × String :=
   let toks := (line.splitOn " ").filter (· ≠ "")
   match toks with
@@ -519,6 +570,7 @@ def step (st : State) (line : String) : State × String :=
     else if t.startsWith "db." || t.startsWith "idx." then stepDb st toks
     else if t.startsWith "sh." || t.startsWith "cs." || t.startsWith "cl." then stepShard st toks
     else if t.startsWith "sel." then stepSelect st toks
+    else if t.startsWith "q." || t.startsWith "lc." then stepAck st toks
     else if t.startsWith "b." || t.startsWith "wb." || t.startsWith "rb." || t.startsWith "mg." || t.startsWith "km." then stepBatch st toks
     else (st, "bad-op")
 
